@@ -1,8 +1,58 @@
 import NetaddrVerif.Model.Proto
-/-! Driver ops of property C11 (stub: filled in by the property's model). -/
+import NetaddrVerif.Model.Subnet
+/-! Driver ops of property C11 (Model/Subnet.lean).
+    `subnet N q count|- limit` → `[first limit blocks] more?` or `!err`
+    `supernet N q` → `[blocks]` or `!err`
+    `next N k` / `prev N k` → `result~receiver` (`!err~receiver`)
+    `iadd N k` / `isub N k` → object after the statement, `!err~object` when it raised
+    `hosts N limit` → `[first limit values] more?` -/
 namespace NV.Driver.C11
-open NV NV.Proto
+open NV NV.Proto NV.Subnet
 
-def handle (_op : String) (_args : List String) : Option String := none
+def showNets (l : List Net) : String := showList (l.map showNet)
+
+def showR (r : R Net) : String :=
+  match r with
+  | .ok n => showNet n
+  | .error e => showErr e
+
+def parseOptInt (s : String) : Option (Option Int) :=
+  if s = "-" then some none else (parseInt s).map some
+
+def handle (op : String) (args : List String) : Option String :=
+  match op, args with
+  | "subnet", [n, q, count, limit] => do
+    let n ← parseNet n; let q ← parseInt q; let count ← parseOptInt count; let limit ← limit.toNat?
+    match subnetTake n q count (limit + 1) with
+    | .ok l => pure (showNets (l.take limit) ++ " " ++ showBool (l.length > limit))
+    | .error e => pure (showErr e)
+  | "supernet", [n, q] => do
+    let n ← parseNet n; let q ← parseInt q
+    match supernet n q with
+    | .ok l => pure (showNets l)
+    | .error e => pure (showErr e)
+  | "next", [n, k] => do
+    let n ← parseNet n; let k ← parseInt k
+    pure (showR (next n k) ++ "~" ++ showNet n)
+  | "prev", [n, k] => do
+    let n ← parseNet n; let k ← parseInt k
+    pure (showR (previous n k) ++ "~" ++ showNet n)
+  | "iadd", [n, k] => do
+    let n ← parseNet n; let k ← parseInt k
+    let (n', e) := stepIadd n k
+    pure (match e with
+      | none => showNet n'
+      | some e => showErr e ++ "~" ++ showNet n')
+  | "isub", [n, k] => do
+    let n ← parseNet n; let k ← parseInt k
+    let (n', e) := stepIsub n k
+    pure (match e with
+      | none => showNet n'
+      | some e => showErr e ++ "~" ++ showNet n')
+  | "hosts", [n, limit] => do
+    let n ← parseNet n; let limit ← limit.toNat?
+    let l := hostsTake n (limit + 1)
+    pure (showList ((l.take limit).map toString) ++ " " ++ showBool (l.length > limit))
+  | _, _ => none
 
 end NV.Driver.C11
